@@ -55,6 +55,7 @@ PROP = {  # commit subject prefix -> (property, what failed)
     "fix: a diagnostic whose position is on an empty line quotes that line": ("C19", "'{<LF><LF>a': the parse error at 2:1 was rendered with a caret under '<unknown>' because line 2 is empty (18 inputs of S1^4 in the thorough tier, found by the oracle kind added for seed C19-6)"),
     "fix: a Str is only added to a Str": ("C04", "'print(\"a\" + 1)' was accepted (the stub of str.__add__ took a union of all primitives) and failed with TypeError: can only concatenate str (former finding C04-F2: 36-61 edits of the quick tier)"),
     "fix: the constructor call of a raise statement is checked": ("C04", "'raise E(undefined_name)', a wrong number of arguments or a wrongly typed argument in a raise was accepted and failed at run time with NameError / TypeError (former finding C04-F1: 24 edits of the quick tier) - the raised constructor call was never visited"),
+    "fix: unary minus is typed by the operand": ("C04", "'-\"s\"', '-None', '-[1]' were accepted and failed with TypeError: bad operand type for unary -, while 'print(-2)' was refused ('Cannot infer type'): a negation generated no constraint at all (the unary-minus half of finding C04-F3; the over-rejection was observation 17 of Appendix A)"),
     "fix: the type of a function without arguments is annotated": ("C02", "'def f(b: () -> Str)' was annotated 'Callable[, str]' with annotate on (valid/function/definition.mamba and its mutants: invalid Python under one setting only, seen by C11 as parsability-differs)"),
     "fix: a class argument that is also handed to a parent": ("C01", "'class Ch(def y: Int): Pa, Ot(y)' with a method reading self.y was accepted and failed with AttributeError: the synthesised constructor skipped 'self.y = y' for every class argument that also appears among a parent's arguments (found by the inheritance matrix: 3 parent kinds x child with a second parent)"),
     "fix: the output directory is created with its missing parents": ("C13", "'-o out/py' with a missing parent 'out' failed a valid project with 'No such file or directory (os error 2)' and no diagnostic (custom layout, 310 transitions of the thorough BFS)"),
